@@ -395,3 +395,70 @@ func rCheck(rs []rRoute, method, path string, o rOutcome) (bool, string) {
 	}
 	return true, ""
 }
+
+// rParseDump turns echo.VerifDumpRouter's text into the canonical sx of Glue/GRouter.v tree_sx
+func rParseDump(s string) Sx {
+	pos := 0
+	var node func() Sx
+	node = func() Sx {
+		if s[pos] == '-' {
+			pos++
+			return L()
+		}
+		pos++ // (
+		kind := map[byte]int{'S': 0, 'P': 1, 'A': 2}[s[pos]]
+		pos += 2
+		j := strings.IndexByte(s[pos:], ' ') + pos
+		pfx, _ := hexDecode(s[pos:j])
+		pos = j + 1
+		j = strings.IndexByte(s[pos:], ']') + pos
+		var ms []string
+		for _, m := range strings.Split(s[pos+1:j], ",") {
+			if m != "" {
+				ms = append(ms, m)
+			}
+		}
+		sort.Strings(ms)
+		pos = j + 2
+		nf := s[pos:pos+2] == "NF"
+		pos += 3
+		leaf, handler := s[pos] == 'L', s[pos+1] == 'H'
+		pos += 4 // flags, space, {
+		type kid struct {
+			sx  Sx
+			pfx string
+		}
+		var kids []kid
+		for s[pos] != '}' {
+			start := pos
+			c := node()
+			// the child's prefix: second token of its text
+			txt := s[start:pos]
+			f := strings.Fields(txt)
+			p, _ := hexDecode(f[1])
+			kids = append(kids, kid{c, p})
+		}
+		pos += 2
+		sort.SliceStable(kids, func(a, b int) bool { return kids[a].pfx < kids[b].pfx })
+		var ks []Sx
+		for _, k := range kids {
+			ks = append(ks, k.sx)
+		}
+		pc := node()
+		pos++
+		ac := node()
+		pos++ // )
+		return L(I(kind), S(pfx), LS(ms), B(nf), B(leaf), B(handler), L(ks...), pc, ac)
+	}
+	return node()
+}
+
+func hexDecode(h string) (string, error) {
+	b := make([]byte, len(h)/2)
+	for i := range b {
+		var v int
+		fmt.Sscanf(h[2*i:2*i+2], "%02X", &v)
+		b[i] = byte(v)
+	}
+	return string(b), nil
+}
